@@ -116,13 +116,69 @@ pub fn test_tree(c: &TreeCase) -> Verdict {
     }
 }
 
+/// lists of pairwise distinct items of one serialized size in which a few items recur at chosen distances, so that the
+/// only possible saving (or loss) comes from back-references whose path length sits at every byte boundary
+pub fn gen_periodic(t: &mut Tape) -> TreeCase {
+    use crate::dag::Dag;
+    let mut d = Dag::new();
+    let n = 2 + t.below_usize(70);
+    let alen = 1 + t.below_usize(7); // payload bytes of every atom
+    let as_pair = t.chance(1, 5); // items are small pairs instead of atoms
+    let mut items: Vec<u32> = Vec::new();
+    for k in 0..n {
+        let mut b = vec![0x80 | (k as u8 & 0x7f); alen];
+        b[alen - 1] = (k >> 7) as u8 | 0x80;
+        if alen >= 2 {
+            b[alen - 2] = k as u8;
+        }
+        let a = d.atom(&b);
+        items.push(if as_pair {
+            let x = d.atom(&[k as u8 | 0x80, 0xaa]);
+            d.pair(a, x)
+        } else {
+            a
+        });
+    }
+    // recurrences: item at position p is replaced by the item at position p - dist
+    for _ in 0..1 + t.below(3) {
+        let dist = 1 + t.below_usize(50.min(n - 1));
+        let p = dist + t.below_usize(n - dist);
+        items[p] = items[p - dist];
+        if t.flip() {
+            // value-equal copy instead of the shared node
+            if let crate::dag::N::A(b, _) = d.n[items[p] as usize].clone() {
+                items[p] = d.atom(&b);
+            }
+        }
+    }
+    match t.below(3) {
+        0 => {
+            d.list(&items);
+        }
+        1 => {
+            // left spine
+            let mut cur = d.nil();
+            for i in &items {
+                cur = d.pair(cur, *i);
+            }
+        }
+        _ => {
+            let term = d.atom(&[0x42]);
+            d.list_term(&items, term);
+        }
+    }
+    TreeCase { tree: d }
+}
+
 pub fn run(r: &mut Runner) {
-    r.rule = "generated DAGs with heavy reuse of sub-trees (shared nodes and value-equal copies, all atom representations); \
+    r.rule = "part trees: generated DAGs with heavy reuse of sub-trees (shared nodes and value-equal copies, all atom representations); part periodic: lists / left spines / improper lists of up to 72 pairwise distinct equal-sized items (atoms of 1..7 bytes or small pairs) in which 1..3 items recur at distances 1..50 (shared node or value-equal copy), so that every path-length byte boundary against every referent size is hit; \
         non-trivial = output contains >= 1 back-reference and is strictly shorter than the classic form; distinct by tree. \
         Oracles: inverse (both implementation decoders), independent decoder written from docs/compressed-serialization.md, canonicity, length <= classic, determinism across runs/copies, ser(decode(b)) == b."
         .into();
     let cfg = TreeCfg { max_nodes: 80, max_atom: 60, reprs: true, dup_atoms: 50, deep: 3000 };
     let n = r.n(20_000, 600_000);
     r.run_part("trees", n, 500, |t: &mut Tape| TreeCase { tree: gen_tree(t, &cfg) }, test_tree);
+    let n = r.n(40_000, 1_000_000);
+    r.run_part("periodic", n, 40, gen_periodic, test_tree);
     r.require_label(">3 backrefs", 200);
 }
